@@ -74,7 +74,7 @@ type Case struct {
 
 func setup() {
 	c := ev.C()
-	c.Rule = "builder programs: sequences of constructor / With* / Add* calls on the five entry builders and both encap-header builders (any order, repeated; header builders are completed before they are added), interleaved with AddEntry/ReplaceEntry/DeleteEntry over one or more builders and UpdateElectionID - each made on a fresh c.Modify(), on the handle the previous call returned (chaining) or on a handle kept from the start -, StartSending at a drawn position and OpProto/EntryProto probes, on a fluent client in elected-primary or all-primary mode connected to a recording stub; builders keep being mutated after they were queued. Oracle: an independent interpreter builds the expected AFTOperation/AFTEntry from scratch (last call wins per setter, append per Add*), the expected ids 1,2,3.., operation type and election stamp; compared with OpProto()/EntryProto() at probe points and, only at the very end (so aliasing shows), with the ModifyRequest pointers the stub received (proto.Equal). Non-trivial = a builder call after a queue call on the same builder, or an UpdateElectionID between two queue calls, or a kept/chained handle used after an election update, or >=6 distinct setters; distinct by FNV-64 of the case JSON."
+	c.Rule = "builder programs: sequences of constructor / With* / Add* calls on the five entry builders and both encap-header builders (any order, repeated; header builders are completed before they are added), interleaved with AddEntry/ReplaceEntry/DeleteEntry over one or more builders and UpdateElectionID - each made on a fresh c.Modify(), on the handle the previous call returned (chaining) or on a handle kept from the start -, StartSending at a drawn position and OpProto/EntryProto probes, on a fluent client in elected-primary or all-primary mode connected to a recording stub; builders keep being mutated after they were queued. Oracle: an independent interpreter builds the expected AFTOperation/AFTEntry from scratch (last call wins per setter, append per Add*), the expected ids 1,2,3.., operation type and election stamp; compared with OpProto()/EntryProto() at probe points and, only at the very end (so aliasing shows), with the ModifyRequest pointers the stub received (proto.Equal). Non-trivial = a builder call after a queue call on the same builder, or an UpdateElectionID between two queue calls, or a kept/chained handle used after an election update, or >=6 distinct setters; distinct by FNV-64 of the case JSON. Later additions: string pools with values a normaliser would rewrite; restart that re-specifies the initial election id."
 	c.Assumptions = []string{"encap-header builders are not touched after being passed to AddEncapHeader; repeated WithLabels on one header is not generated (ambiguous)"}
 }
 
